@@ -150,6 +150,20 @@ func (w *writer) Delete(rs *segment.RewriteSegment) (*writer, *reader, error) {
 		return nwrt, nil, nil
 	}
 
+	nextOffset, nextTime := w.index.getNext()
+	tailDeleted := rs.DeletedMessages[len(rs.DeletedMessages)-1].Offset == w.index.getLastOffset()
+
+	var nwrt *writer
+	if tailDeleted {
+		// the last message is deleted, so the rewritten segment no longer tells what the next offset is:
+		// create the new (empty) writing segment first, if we stop halfway the next offset is still known
+		wrt, err := openWriter(w.segment.NewAt(nextOffset), w.params, w.version, nextTime)
+		if err != nil {
+			return nil, nil, err
+		}
+		nwrt = wrt
+	}
+
 	nseg := rs.GetNewSegment()
 	if nseg != w.segment {
 		// the starting offset of the new segment is different
@@ -160,32 +174,19 @@ func (w *writer) Delete(rs *segment.RewriteSegment) (*writer, *reader, error) {
 		if err := w.segment.Remove(); err != nil {
 			return nil, nil, err
 		}
-
-		// first move the replacement
-		nextOffset, nextTime := w.index.getNext()
-		if rs.DeletedMessages[len(rs.DeletedMessages)-1].Offset == w.index.getLastOffset() {
-			rdr := openReader(nseg, w.params, w.version, false)
-			wrt, err := openWriter(w.segment.NewAt(nextOffset), w.params, w.version, nextTime)
-			return wrt, rdr, err
-		} else {
-			wrt, err := openWriter(nseg, w.params, w.version, nextTime)
-			return wrt, nil, err
+	} else {
+		if err := rs.Override(w.segment); err != nil {
+			return nil, nil, err
 		}
 	}
 
-	if err := rs.Override(w.segment); err != nil {
-		return nil, nil, err
+	if tailDeleted {
+		rdr := openReader(nseg, w.params, w.version, false)
+		return nwrt, rdr, nil
 	}
 
-	nextOffset, nextTime := w.index.getNext()
-	if rs.DeletedMessages[len(rs.DeletedMessages)-1].Offset == w.index.getLastOffset() {
-		rdr := openReader(w.segment, w.params, w.version, false)
-		wrt, err := openWriter(w.segment.NewAt(nextOffset), w.params, w.version, nextTime)
-		return wrt, rdr, err
-	} else {
-		wrt, err := openWriter(w.segment, w.params, w.version, nextTime)
-		return wrt, nil, err
-	}
+	wrt, err := openWriter(nseg, w.params, w.version, nextTime)
+	return wrt, nil, err
 }
 
 func (w *writer) Sync() error {
